@@ -220,7 +220,6 @@ package consensus
 //@   requires msWF(*ms) && scBounded(*ms, ts) && len(txn.SiacoinInputs) < NB
 //@   requires forall i in 0..len(txn.SiacoinOutputs)+1 :: sumSCO(txn.SiacoinOutputs, i) < types.M128
 //@   requires forall i in 0..len(txn.FileContracts)+1 :: sumSCO(txn.SiacoinOutputs, len(txn.SiacoinOutputs)) + sumFCPayout(txn.FileContracts, i) < types.M128
-//@   requires forall i in 0..len(txn.MinerFees)+1 :: sumSCO(txn.SiacoinOutputs, len(txn.SiacoinOutputs)) + sumFCPayout(txn.FileContracts, len(txn.FileContracts)) + sumCur(txn.MinerFees, i) < types.M128
 //@   ghost k int
 //@   let in = txn.SiacoinInputs[k]
 //@   let par = ms.siacoinElement(ts, txn.SiacoinInputs[k].ParentID)
@@ -229,7 +228,6 @@ package consensus
 //@   invariant loop#2 @output-sum types.u128(outputSum) == sumSCO(txn.SiacoinOutputs, $n)
 //@   invariant loop#2 @no-overflow $n < len(txn.SiacoinOutputs) ==> sumSCO(txn.SiacoinOutputs, $n + 1) < types.M128
 //@   invariant loop#3 @no-overflow $n < len(txn.FileContracts) ==> sumSCO(txn.SiacoinOutputs, len(txn.SiacoinOutputs)) + sumFCPayout(txn.FileContracts, $n + 1) < types.M128
-//@   invariant loop#4 @no-overflow $n < len(txn.MinerFees) ==> sumSCO(txn.SiacoinOutputs, len(txn.SiacoinOutputs)) + sumFCPayout(txn.FileContracts, len(txn.FileContracts)) + sumCur(txn.MinerFees, $n + 1) < types.M128
 //@   invariant loop#3 @payout-sum types.u128(outputSum) == sumSCO(txn.SiacoinOutputs, len(txn.SiacoinOutputs)) + sumFCPayout(txn.FileContracts, $n)
 //@   invariant loop#4 @fee-sum types.u128(outputSum) == sumSCO(txn.SiacoinOutputs, len(txn.SiacoinOutputs)) + sumFCPayout(txn.FileContracts, len(txn.FileContracts)) + sumCur(txn.MinerFees, $n)
 //@   ensures @M1-timelock result == nil && 0 <= k && k < len(txn.SiacoinInputs) ==> in.UnlockConditions.Timelock <= cheight(ms.base)
@@ -238,7 +236,7 @@ package consensus
 //@   ensures @K1-unlock-hash result == nil && 0 <= k && k < len(txn.SiacoinInputs) ==> in.UnlockConditions.UnlockHash() == par.0.SiacoinOutput.Address
 //@   ensures @M2-maturity result == nil && 0 <= k && k < len(txn.SiacoinInputs) ==> par.0.MaturityHeight <= cheight(ms.base)
 //@   ensures @B1-balance result == nil ==> sumSCParents(*ms, ts, txn.SiacoinInputs, len(txn.SiacoinInputs)) == sumSCO(txn.SiacoinOutputs, len(txn.SiacoinOutputs)) + sumFCPayout(txn.FileContracts, len(txn.FileContracts)) + sumCur(txn.MinerFees, len(txn.MinerFees))
-//@   ensures @sufficient (forall j in 0..len(txn.SiacoinInputs) :: txn.SiacoinInputs[j].UnlockConditions.Timelock <= cheight(ms.base) && !has(ms.spends, txn.SiacoinInputs[j].ParentID) && ms.siacoinElement(ts, txn.SiacoinInputs[j].ParentID).1 && txn.SiacoinInputs[j].UnlockConditions.UnlockHash() == ms.siacoinElement(ts, txn.SiacoinInputs[j].ParentID).0.SiacoinOutput.Address && ms.siacoinElement(ts, txn.SiacoinInputs[j].ParentID).0.MaturityHeight <= cheight(ms.base)) && sumSCParents(*ms, ts, txn.SiacoinInputs, len(txn.SiacoinInputs)) == sumSCO(txn.SiacoinOutputs, len(txn.SiacoinOutputs)) + sumFCPayout(txn.FileContracts, len(txn.FileContracts)) + sumCur(txn.MinerFees, len(txn.MinerFees)) ==> result == nil
+//@   ensures @sufficient (forall i in 0..len(txn.MinerFees)+1 :: sumSCO(txn.SiacoinOutputs, len(txn.SiacoinOutputs)) + sumFCPayout(txn.FileContracts, len(txn.FileContracts)) + sumCur(txn.MinerFees, i) < types.M128) && (forall j in 0..len(txn.SiacoinInputs) :: txn.SiacoinInputs[j].UnlockConditions.Timelock <= cheight(ms.base) && !has(ms.spends, txn.SiacoinInputs[j].ParentID) && ms.siacoinElement(ts, txn.SiacoinInputs[j].ParentID).1 && txn.SiacoinInputs[j].UnlockConditions.UnlockHash() == ms.siacoinElement(ts, txn.SiacoinInputs[j].ParentID).0.SiacoinOutput.Address && ms.siacoinElement(ts, txn.SiacoinInputs[j].ParentID).0.MaturityHeight <= cheight(ms.base)) && sumSCParents(*ms, ts, txn.SiacoinInputs, len(txn.SiacoinInputs)) == sumSCO(txn.SiacoinOutputs, len(txn.SiacoinOutputs)) + sumFCPayout(txn.FileContracts, len(txn.FileContracts)) + sumCur(txn.MinerFees, len(txn.MinerFees)) ==> result == nil
 
 // ------------------------------------------------------------ hashes and accumulator membership (T9, C04)
 //@ func (*ElementAccumulator).containsChainIndex
